@@ -503,10 +503,13 @@ func (d *detWrap) relay(realSub, h *reorgdetector.Subscription) {
 			return
 		}
 		// hand-over: not before the driver can take the notification at once (no delivered block unprocessed, not parked in a
-		// call); nothing is held while waiting
+		// call); nothing is held while waiting. From here until the driver has the notification no new block is delivered to it
+		// (the detector's send can arrive late - e.g. behind another subscriber's walk - and must still find the driver idle).
+		atomic.StoreInt32(&d.n.e.handover, 1)
 		for atomic.LoadInt32(&d.n.inflight) != 0 || d.n.e.find("drv") != nil {
 			select {
 			case <-ctx.Done():
+				atomic.StoreInt32(&d.n.e.handover, 0)
 				return
 			case <-time.After(200 * time.Microsecond):
 			}
@@ -515,9 +518,11 @@ func (d *detWrap) relay(realSub, h *reorgdetector.Subscription) {
 		select {
 		case m = <-realSub.ReorgedBlock:
 		case <-time.After(10 * time.Second):
+			atomic.StoreInt32(&d.n.e.handover, 0)
 			d.n.e.c.Emit(tr.M{"ev": "panic", "who": "rd", "msg": "predicted notification did not come"})
 			return
 		case <-ctx.Done():
+			atomic.StoreInt32(&d.n.e.handover, 0)
 			return
 		}
 		// (when the node is stopped in the middle of the hand-over the old detector stays blocked: the process would be dead.
@@ -525,7 +530,9 @@ func (d *detWrap) relay(realSub, h *reorgdetector.Subscription) {
 		// subscriber never handled)
 		select {
 		case h.ReorgedBlock <- m:
+			atomic.StoreInt32(&d.n.e.handover, 0)
 		case <-ctx.Done():
+			atomic.StoreInt32(&d.n.e.handover, 0)
 			return
 		}
 		select {
@@ -616,6 +623,7 @@ const shadowID = "verif-shadow"
 func startNode(e *env, cfg nodeCfg) (*node, error) {
 	ctx, cancel := context.WithCancel(context.Background())
 	n := &node{e: e, ctx: ctx, cancel: cancel, syncDone: make(chan struct{})}
+	atomic.StoreInt32(&e.handover, 0)
 	// as cmd/run.go commonly orders it: detector Start (load tracked blocks), then the syncer subscribes
 	pred := &rdPredict{ch: make(chan uint64, 1), e: e}
 	rd, err := reorgdetector.New(&client{who: "rd", e: e, tag: cfg.tag, onHeader: pred.onHeader}, reorgdetector.Config{
